@@ -299,6 +299,11 @@ pub fn run_c10(cx: &Ctx) -> i32 {
                 Err(_) => return,
             };
             t.programs += 1;
+            let limited: Vec<(usize, fancy_regex::Regex)> = if engine::engine_class(&re).0 {
+                [0usize, 1, 2].iter().filter_map(|&l| engine::compile_with(&pattern, |b| { b.backtrack_limit(l); }).ok().map(|r| (l, r))).collect()
+            } else {
+                vec![]
+            };
             let mut viol = |t: &mut Tally, text: &str, what: String| {
                 t.violation(
                     weight(&pattern, text),
@@ -307,6 +312,31 @@ pub fn run_c10(cx: &Ctx) -> i32 {
                 );
             };
             for text in &texts {
+                // error histories (tiny backtrack limits): find_iter ends with its Err; split still has
+                // one more piece than there are matches - the pieces between the matches found, the
+                // Err, then the rest of the text from the end of the last match found
+                for (l, lre) in &limited {
+                    let lf = engine::find_iter_log(lre, text);
+                    if lf.panic.is_some() || lf.overran || !lf.items.iter().any(|i| i.is_err()) {
+                        continue;
+                    }
+                    let ok_matches: Vec<(usize, usize)> = lf.items.iter().filter_map(|i| i.clone().ok()).collect();
+                    if ok_matches.iter().any(|&(s, e)| !(s <= e && e <= text.len() && text.is_char_boundary(s) && text.is_char_boundary(e))) || ok_matches.windows(2).any(|w| w[1].0 < w[0].1) {
+                        continue;
+                    }
+                    t.evaluations += 1;
+                    match engine::split_all(lre, text) {
+                        None => viol(&mut t, text, format!("backtrack limit {}: split panics after a search error", l)),
+                        Some(items) => {
+                            let pieces: Vec<(usize, usize)> = items.iter().filter_map(|i| i.clone().ok()).collect();
+                            let errs = items.iter().filter(|i| i.is_err()).count();
+                            let exp = itermodel::split_model(text, &ok_matches);
+                            if pieces != exp || errs != 1 {
+                                viol(&mut t, text, format!("backtrack limit {}: find_iter yields {:?}; split yields {:?}, expected the pieces {:?} and exactly one Err", l, lf.items, items, exp));
+                            }
+                        }
+                    }
+                }
                 let fi = engine::find_iter_log(&re, text);
                 if fi.panic.is_some() || fi.overran || fi.items.iter().any(|i| i.is_err()) {
                     t.count("skipped_find_iter_error_or_panic", 1);
@@ -384,7 +414,7 @@ pub fn run_c10(cx: &Ctx) -> i32 {
         t,
         Finish {
             rule: format!(
-                "every pattern of {} x every text over {:?} up to length {} and every text over [a, euro sign, emoji] up to length 2 x limits 0..5; split and splitn are driven to None and polled twice more (fusedness); oracle: pieces = gaps between consecutive find_iter matches (one more piece than matches), interleaving pieces and matched texts rebuilds the input byte for byte, splitn(n) = min(n, pieces) items: the first n-1 of split and the untouched remainder, n = 0 yields nothing; non-trivial = (pattern,text) with at least one match",
+                "every pattern of {} x every text over {:?} up to length {} and every text over [a, euro sign, emoji] up to length 2 x limits 0..5; split and splitn are driven to None and polled twice more (fusedness); oracle: pieces = gaps between consecutive find_iter matches (one more piece than matches), interleaving pieces and matched texts rebuilds the input byte for byte, splitn(n) = min(n, pieces) items: the first n-1 of split and the untouched remainder, n = 0 yields nothing; error histories (VM patterns under backtrack limits 0, 1, 2 whose find_iter ends in an Err): split still yields one more piece than there are matches - the gaps between the matches found, exactly one Err, then the rest of the text - and does not panic; non-trivial = (pattern,text) with at least one match",
                 space.describe(), alphabet, max_len
             ),
             exhaustive: true,
